@@ -12,6 +12,6 @@ CONSTANTS
 INIT Init
 NEXT Next
 VIEW View
-INVARIANTS TypeOK Exact UnparsableEntryIgnored MappedAsV4 CompiledShape AddsMatch CompileMatch BadNeverWidens
+INVARIANTS TypeOK Exact UnparsableEntryIgnored MappedAsV4 CompiledShape
 PROPERTIES QueryExact UnparsableEntryIgnoredA
 CHECK_DEADLOCK FALSE
